@@ -29,7 +29,7 @@ RECURSIVE SumX(_, _, _)
 SumX(x, b, e) == IF x = <<>> \/ b >= e THEN 0 ELSE x[b] + SumX(x, b + 1, e)
 
 Out(verdict, kind, why, pos, g) ==
-   [verdict |-> verdict, kind |-> kind, why |-> why, pos |-> pos,
+   [verdict |-> verdict, kind |-> kind, why |-> why, pos |-> pos, b |-> pos,
     tree |-> IF verdict = "accept" THEN Result(g) ELSE NoVal,
     errs |-> IF verdict = "accept" THEN g.errs ELSE <<>>]
 
@@ -44,7 +44,7 @@ Scan(d, t, x, i, line, g, open) ==
         ELSE Out("reject", "parse", ge.locus, i - 1, ge)
    ELSE IF raw.rk = "bad" THEN
         IF open THEN Out("unspec", "", "", raw.e - 1, g)
-        ELSE Out("reject", "lex", raw.err, (IF raw.err = "char" THEN raw.e ELSE raw.b) - 1, g)
+        ELSE [Out("reject", "lex", raw.err, (IF raw.err = "char" THEN raw.e ELSE raw.b) - 1, g) EXCEPT !.b = raw.b - 1]
    ELSE LET line2 == line + LFsIn(t, raw.b, raw.e) + SumX(x, raw.b + 1, raw.e + 1) IN
         IF raw.rk = "ws" THEN Scan(d, t, x, raw.e, line2, g, open)
         ELSE LET tk == Tok(d, t, raw, line)
